@@ -23,7 +23,11 @@ def generate(rng, tier):
     out = c03.generate(rng, "quick")[:250 * n] if tier == "quick" else c03.generate(rng, tier)[:250 * n]
     out += c05.generate(rng, "quick")[:200] if tier == "quick" else c05.generate(rng, tier)[:200 * n]
     out += [sc.gen_static(rng, nest_depth=2, faults=True) for _ in range(80 * n)]
-    out += [sc.gen_dynamic(rng, faults=(rng.random() < 0.3)) for _ in range(80 * n)]
+    for _ in range(80 * n):
+        p = sc.gen_dynamic(rng, faults=(rng.random() < 0.3))
+        if rng.random() < 0.4:
+            p["doers_as"] = "tuple"      # any iterable of doers is accepted, by do() and by ado()
+        out.append(p)
     # histories of runs on one Doist, limits that expire exactly in the completing cycle
     for _ in range(80 * n):
         p = sc.gen_static(rng, n_leaves=rng.randint(1, 3), nest_depth=0, faults=False, tocks="dyadic", limit_p=1.0)
@@ -41,6 +45,10 @@ def run_impl(case):
 
 def oracle(case, obs):
     d, a = obs["do"], obs["ado"]
+    for o in (d, a):
+        why = sc.clock_oracle(o)
+        if why:
+            return ("ado(): " if o is a else "do(): ") + why
     for key in ("trace", "dones", "tyme", "scheds", "raised"):
         if d[key] != a[key]:
             if key == "trace":
